@@ -50,7 +50,7 @@ CHECKS = {
  "C08": {
   "level": "proof",
   "technique": "Coq proof: presence survives Unmarshal(Marshal(m)) for whole messages (C03's theorem on the presence-carrying value universe) + generator facts (Always selection) + presence-skeleton correspondence with protobuf-go",
-  "text": "Proved in Coq: C08_presence_round_trip = C03_marshal_unmarshal (Schema/RoundTrip.v): for every message type of the feature set (rt_applies_at, over the types reachable from it: distinct valid numbers, modelled custom types, valid message indices, stable zero values) and every well-typed value (Go ranges, at most one member per oneof, distinct map keys, captured bytes as UnrecognizedFields stores them), at any size and depth: Marshal succeeds and Unmarshal of its output into a fresh message returns nil and the message itself - scalars bit for bit, presence, oneof selection, repeated order, nested messages, map contents, unrecognized bytes - up to the by-design normal form (zero time.Time behind a pointer or in a slice is not written; a nil element of a repeated message comes back empty). It composes T_enc (Marshal = reference encoder), the reference round trip ref_decode (ref_encode v) = norm v proved field by field, fuel independence of the reference decoder, and T_dec (Unmarshal = reference decoder). The value universe distinguishes VOpt None from VOpt (Some zero), VMsg None from VMsg (Some empty), the selected oneof member holding zero from none selected, and keeps empty repeated elements, so the equality IS presence preservation. Also: for every schema the generator model selects Always writers for pointer scalars and scalar/enum oneof members; Always writers emit every value. Not a theorem: that protobuf-go sees the same distinction (Has()) - compared per run on checked-in and fresh types. The theorems are about the Gallina model: that the model is the code is checked on every run by evaluating the extracted model and the implementation built from the working tree on the same generated inputs (checked-in types and freshly generated ones), that the emitted programs are the generator model's by T-pico, and that the reference specification means what protobuf means by comparing it with protobuf-go. The premises of the theorems (msg_ok, rt_ok, rt_applies_at, tdec_applies_at) are evaluated on every generated value and schema and counted in the evidence.",
+  "text": "Proved in Coq: C08_presence_round_trip = C03_marshal_unmarshal (Schema/RoundTrip.v): for every message type of the feature set (rt_applies_at, over the types reachable from it: distinct valid numbers, modelled custom types, valid message indices, stable zero values) and every well-typed value (Go ranges, at most one member per oneof, distinct map keys, captured bytes as UnrecognizedFields stores them), at any size and depth: Marshal succeeds and Unmarshal of its output into a fresh message returns nil and the message itself - scalars bit for bit, presence, oneof selection, repeated order, nested messages, map contents, unrecognized bytes - up to the by-design normal form (zero time.Time behind a pointer or in a slice is not written; a nil element of a repeated message comes back empty). It composes T_enc (Marshal = reference encoder), the reference round trip ref_decode (ref_encode v) = norm v proved field by field, fuel independence of the reference decoder, and T_dec (Unmarshal = reference decoder). The value universe distinguishes VOpt None from VOpt (Some zero), VMsg None from VMsg (Some empty), the selected oneof member holding zero from none selected, and keeps empty repeated elements, so the equality IS presence preservation. Also: for every schema the generator model selects Always writers for pointer scalars and for scalar, enum and by-value message members of a oneof (the last since the repair D14); Always writers emit every value. Not a theorem: that protobuf-go sees the same distinction (Has()) - compared per run on checked-in and fresh types. The theorems are about the Gallina model: that the model is the code is checked on every run by evaluating the extracted model and the implementation built from the working tree on the same generated inputs (checked-in types and freshly generated ones), that the emitted programs are the generator model's by T-pico, and that the reference specification means what protobuf means by comparing it with protobuf-go. The premises of the theorems (msg_ok, rt_ok, rt_applies_at, tdec_applies_at) are evaluated on every generated value and schema and counted in the evidence.",
   "note": "Trusted: Coq 8.16.1 kernel (vm_compute, no native_compute, no axioms: Print Assumptions recorded in evidence), extraction with ExtrOcamlBasic, the OCaml driver, the Go harness and generators, protobuf-go v1.31.0 as oracle. The tie between model and Go code is differential testing on the projection named in the level text, not proof.",
   "ref": "8 C08"
  },
